@@ -72,7 +72,7 @@ Fixpoint printable (e : expr) : bool :=
   | EAssign _ l v => simple_target l && printable l && printable v
   | ECompound _ l _ v => simple_target l && printable l && printable v
   | EArray _ es _ => forallb printable es
-  | EObject _ ps _ => forallb (fun kv => printable (snd kv)) ps
+  | EObject _ ps _ => forallb (fun kv => key_ok (fst kv) && printable (snd kv)) ps
   end.
 
 (* the level discipline alone (Grammar.wf_expr without the token-shape checks that
